@@ -10,7 +10,7 @@ from ..runner import ShardResult
 
 ID = "C13"
 LEVEL = "fault_enumeration"
-RULE = ("25 (start state, call) cases covering store_object (new / duplicate / empty content, first / additional pid, "
+RULE = ("29 (start state, call) cases covering store_object (new / duplicate / empty content, first / additional pid, "
         "cid with a list but no object, pid already bound), tag_object, delete_object (sole / shared reference, with "
         "metadata, missing object), store_metadata (create / overwrite), delete_metadata (one / all) from 6 start "
         "states with bystander pids that share the subject's object and carry metadata (thorough: each case in 5 "
@@ -123,8 +123,9 @@ def run_fault_shard(case_idxs, tier, sub_seed, symptoms=None, owner="C13"):
                             if symptom.startswith("note:"):
                                 res.count(symptom[5:].replace("-", "_"))
                                 continue
-                            sig = {"symptom": symptom, "call": op_shape(case.call), "case": case.label,
-                                   "site": sc, "persistent": persistent, "after_both_refs_written": after_refs}
+                            sig = {"symptom": symptom, "call": op_shape(case.call), "call_kind": case.call["op"],
+                                   "case": case.label, "site": sc, "persistent": persistent,
+                                   "after_both_refs_written": after_refs}
                             wit = {"engine": "fault", "case_index": ci, "variant": variant, "case": case.label, "start": case.start_name,
                                    "call": case.call, "site": site, "site_op": r["fired"].describe(case.rundir),
                                    "errno": cname, "persistent": persistent, "outcome": r["outcome"].brief(),
@@ -177,7 +178,7 @@ def replay(witness, symptoms=None):
         for symptom, detail in r["problems"]:
             print("problem:", symptom, jsonable(detail))
             if symptom in symptoms:
-                res.violation({"symptom": symptom, "call": op_shape(case.call), "case": case.label,
+                res.violation({"symptom": symptom, "call": op_shape(case.call), "call_kind": case.call["op"], "case": case.label,
                                "site": site_class(case, r["fired"]), "persistent": witness["persistent"],
                                "after_both_refs_written": _after_both_refs(case, r["injector"])}, witness)
         res.evaluations = 1
